@@ -53,6 +53,34 @@ def closed_flag_joins(c, h):
     return out
 
 
+def join_sources(c, h, n, anc):
+    """what is OR-ed into the flag, by provenance: 'payload' = the closedness a variant-payload converter returned,
+    'variant-closed' = literal true under this variant's `additionalProperties: false`, anything else by its Canon text"""
+    from lib import Canon
+    cn = Canon(c, h, 3)
+    if n.get("k") == "assign":
+        g = [x for x in guards(anc, n) if x[0] == "arm"]
+        return ["variant-closed"] if src(n["r"]) == "true" and any("Schema::Bool(false)" in x[1] for x in g) else ["other:" + cn.r(n["r"])[:60]]
+    parts = []
+
+    def split(e):
+        e = strip_refs(e)
+        if e.get("k") == "bin" and e.get("op") in ("Or", "BitOr"):
+            split(e["l"])
+            split(e["r"])
+        else:
+            parts.append(e)
+    split(n["r"])
+    out = []
+    for e in parts:
+        t = cn.r(e)
+        if re.fullmatch(r"self\.\w*variant\(.*\)\S*\.1", t) or re.fullmatch(r"self\.\w+\(.*\)(\.ok\(\))?\?\.1", t):
+            out.append("payload")
+        else:
+            out.append("other:" + t[:60])
+    return sorted(set(out))
+
+
 def run(facts, rep, tier):
     c = facts.impl
     # ------------------------------------------------------------ W1
@@ -125,7 +153,9 @@ def run(facts, rep, tier):
         for n, how, kind in closed_flag_joins(c, h):
             n_src += 1
             if kind == "or":
-                rep.ob("C02.W2", "closed-source:%s/or-join" % h["fn"], False,
+                anc_ = [a_ for x_, a_ in walk(h["body"]) if x_ is n][0]
+                srcs_ = join_sources(c, h, n, anc_)
+                rep.ob("C02.W2", "closed-source:%s/or-join[%s]" % (h["fn"], ",".join(srcs_)), False,
                        "`%s` inside the loop over the variants: one closed variant closes every variant of the enum (the attribute is on the container), so valid instances of the open variants are rejected" % how, n.get("sp"))
             else:
                 rep.ob("C02.W2", "closed-source:%s/last-wins" % h["fn"], False,
@@ -199,6 +229,22 @@ def run(facts, rep, tier):
             why = "a branch qualifies only if all of its members are required (`properties.len() == required.len()`)"
             bad = "a branch whose content member is optional is taken as adjacently tagged: serde demands the content member of a newtype/struct variant, so a valid instance without it is rejected"
         rep.ob("C02.D1", "recogniser-precondition:%s" % kind, ok, why if ok else bad, h.get("sp"))
+
+    # internally / adjacently tagged: a variant is data-less only when the tag is its one and only member
+    n_u = 0
+    for hh in c.user_fns():
+        ins = c.fns.get(hh["fn"], {}).get("inputs", [])
+        if not (any("ObjectValidation" in t for t in ins) and c.fns[hh["fn"]].get("output", "").startswith("std::result::Result<") and "Variant" in c.fns[hh["fn"]].get("output", "")):
+            continue
+        cnu = Canon(c, hh, 1)
+        for n, anc in walk(hh["body"]):
+            if n.get("k") == "path" and n.get("res") == "ctor" and n.get("path", "").endswith("VariantDetails::Simple") and n.get("ty") is not None:
+                conds = [g for g in cguards(cnu, anc, n) if g[0] in ("if", "else")]
+                n_u += 1
+                ok = len(conds) == 1 and conds[0][0] == "if" and re.fullmatch(r"\(\$&ObjectValidation\.properties\.len\(\) Eq 1\)", conds[0][1]) is not None
+                rep.ob("C02.D1", "unit-variant-iff-tag-only:%s" % hh["fn"], ok, "Simple only under `validation.properties.len() == 1`" if ok else
+                       "a tagged variant is made data-less under `%s`, not exactly when the tag is its only member: members the schema declares (and may require) are dropped from the variant, so they are lost on a round trip and not written back" % (gtext(conds) or "no condition")[:120], n.get("sp"))
+    rep.floor("C02.D1", "data-less variants built by the tagged-variant helpers", n_u, 2)
 
     # ------------------------------------------------------------ W5 sibling name hints are distinct
     n_sites = 0
